@@ -90,17 +90,19 @@ fn both<G: CurveTag>(inst: &Instance<G>, m: &IppMirror<G>) -> Result<(bool, bool
     Ok((real, reference))
 }
 
-fn case<G: CurveTag>(bytes: &[u8], col: &mut Collector, kmax: usize) -> Result<(), Failure> {
+fn case<G: CurveTag>(bytes: &[u8], col: &mut Collector, kmax: usize, force: Option<(usize, usize)>) -> Result<(), Failure> {
     let mut ch = Choices::new(bytes);
     let k = {
         // favour small lengths, but reach every k
         let w: Vec<u32> = (0..=kmax).map(|k| [30u32, 30, 30, 25, 16, 8, 5, 4, 1, 1, 1][k.min(10)]).collect();
         ch.weighted(&w)
     };
+    let k = force.map(|f| f.0).unwrap_or(k);
     let n = 1usize << k;
     let akind = ch.weighted(&[40, 12, 4, 8, 10, 13, 13]);
     let bkind = ch.weighted(&[40, 12, 4, 8, 10, 13, 13]);
     let fkind = ch.weighted(&[35, 20, 20, 25]);
+    let fkind = force.map(|f| f.1).unwrap_or(fkind);
     let gens_random = ch.chance(60);
     let seed = ch.u16() as u64;
     let a: Vec<Fr<G>> = gen_vec(&mut ch, n, akind);
@@ -241,10 +243,15 @@ fn case<G: CurveTag>(bytes: &[u8], col: &mut Collector, kmax: usize) -> Result<(
 fn dispatch(sub: &str, bytes: &[u8], col: &mut Collector) -> Result<(), Failure> {
     let curve = Curve::from_name(sub.split('/').nth(1).unwrap_or("")).unwrap_or(Curve::Secq);
     let kmax: usize = sub.split('/').nth(2).and_then(|s| s.parse().ok()).unwrap_or(7);
-    with_curve!(curve, G => case::<G>(bytes, col, kmax))
+    with_curve!(curve, G => case::<G>(bytes, col, kmax, None))
 }
 
 pub fn replay(sub: &str, bytes: &[u8], col: &mut Collector) -> Result<(), Failure> {
+    if sub == "c10/long" && bytes.len() == 3 {
+        let (k, f) = (bytes[1] as usize, bytes[2] as usize);
+        let seed_bytes = [(k as u8) * 7 + f as u8, 200, 13, 5, 1, 9, 77, 3];
+        return with_curve!(Curve::ALL[bytes[0] as usize % 3], G => case::<G>(&seed_bytes, col, 10, Some((k, f))));
+    }
     dispatch(sub, bytes, col)
 }
 
@@ -260,6 +267,28 @@ pub fn run(tier: &str, seed: u64) -> i32 {
         let sub = format!("c10/{}/{}", c.name(), if tier == "thorough" { 10 } else { 7 });
         rep.outcome.merge(replay_corpus("C10", &sub, &|b, col| dispatch(&sub, b, col)));
         rep.outcome.merge(search(&sub, seed, n, 1200, &|b, col| dispatch(&sub, b, col)));
+    }
+    // a few long vectors (n = 256, 512, 1024) with non-uniform factors in every run
+    if rep.outcome.found.is_empty() {
+        let mut items = vec![];
+        for c in Curve::ALL {
+            for k in [8usize, 9, 10] {
+                for f in [0usize, 3] {
+                    items.push((c, k, f));
+                }
+            }
+        }
+        let o = crate::runner::enumerate(
+            "c10/long",
+            &items,
+            &|(c, k, f)| vec![c.index() as u8, *k as u8, *f as u8],
+            &|(c, k, f), col| {
+                let seed_bytes = [(*k as u8) * 7 + *f as u8, 200, 13, 5, 1, 9, 77, 3];
+                with_curve!(*c, G => case::<G>(&seed_bytes, col, 10, Some((*k, *f))))
+            },
+        );
+        rep.outcome.merge(o);
+        rep.outcome.exhaustive = false;
     }
     for (c, f) in [("k=0", 0.03), ("k=1", 0.03), ("k=4", 0.02), ("k=7", 0.005), ("degenerate-round(expected reject)", 0.03), ("factors:r1cs-like", 0.05), ("edit:claimed-n-doubled", 0.02), ("edit:P+cQ wrong product", 0.02)] {
         rep.required_classes.push((c.to_string(), f));
